@@ -41,35 +41,18 @@ theorem C20_dead_stays_dead (r : Registry.Reg) (a : Registry.Addr) (evs : List R
   intro now thr hle
   rw [Registry.get_dead _ _ h]; exact Registry.fresh_zero_false now thr hle
 
-/-- No event of the history performs a `register a` (checked along the run, because which call a
-`deliver` delivers depends on the state). -/
-def NoRegister (a : Registry.Addr) : Registry.World → List Registry.Ev → Prop
-  | _, [] => True
-  | w, e :: es => (∀ x ∈ w.regEvents e, x.registers a = false) ∧ NoRegister a (w.step e).1 es
-
-theorem runEvs_dead (a : Registry.Addr) (evs : List Registry.Ev) :
-    ∀ w : Registry.World, w.reg a = some none → NoRegister a w evs → (w.runEvs evs).1.reg a = some none := by
-  induction evs with
-  | nil => intro w h _; exact h
-  | cons e es ih =>
-    intro w h hno
-    simp only [Registry.World.runEvs]
-    refine ih (w.step e).1 ?_ hno.2
-    rw [Registry.step_reg]
-    exact Registry.dead_stable_run a _ _ h hno.1
-
 /-- **Dead stays dead (client level).**  In every history of client, transport and clock events that
 follows an `unregister a` (`worker_registry().unregister`, or `CourierClient.shutdown`, or a delivered
 `heartbeat(a, is_alive=False)`) and contains no `register a` — in particular whatever heartbeat
 replies are delivered late, fail, or are folded by `is_alive` — every client of address `a` answers
 `is_alive = False`. -/
 theorem C20_dead_stays_dead_clients (w : Registry.World) (a : Registry.Addr) (evs : List Registry.Ev)
-    (hdead : w.reg a = some none) (hno : NoRegister a w evs) :
+    (hdead : w.reg a = some none) (hno : Registry.NoRegister a w evs) :
     let w' := (w.runEvs evs).1
     w'.reg a = some none ∧
       ∀ j c, w'.clients[j]? = some c → c.addr = a → c.thr ≤ w'.now → (w'.isAlive j).2 = false := by
   intro w'
-  have h : w'.reg a = some none := runEvs_dead a evs w hdead hno
+  have h : w'.reg a = some none := Registry.runEvs_dead a evs w hdead hno
   refine ⟨h, ?_⟩
   intro j c hc ha hthr
   subst ha
@@ -104,82 +87,23 @@ theorem C20_monotone_get (r : Registry.Reg) (a : Registry.Addr) (evs : List Regi
     Registry.get r a ≤ Registry.get (Registry.run r evs) a :=
   Registry.get_mono_run a evs r h
 
-/-- A handler that would unregister `a`. -/
-def hbUnregs (a : Registry.Addr) : Registry.HbPc → Bool
-  | .start (some b) false => b == a
-  | .read (some b) false _ => b == a
-  | _ => false
-
-def labelUnregs (a : Registry.Addr) : Registry.HbLabel → Bool
-  | .other e => e.unregisters a
-  | _ => false
-
-/-- Run the concurrent heartbeat-handler system along a label sequence (disabled labels are skipped). -/
-def hbRun (c : Registry.HbCfg) : List Registry.HbLabel → Registry.HbCfg
-  | [] => c
-  | l :: ls => hbRun ((Registry.hbStep? c l).getD c) ls
-
-theorem hbStep_mono (a : Registry.Addr) (c c' : Registry.HbCfg) (lab : Registry.HbLabel) (l : Registry.Time)
-    (hs : Registry.hbStep? c lab = some c') (hlive : c.reg a = some (some l))
-    (hh : ∀ h, hbUnregs a (c.handlers h) = false) (hl : labelUnregs a lab = false) :
-    (∃ l', c'.reg a = some (some l') ∧ l ≤ l') ∧ ∀ h, hbUnregs a (c'.handlers h) = false := by
-  cases lab with
-  | tick d =>
-    simp only [Registry.hbStep?, Option.some.injEq] at hs; subst hs
-    exact ⟨⟨l, hlive, Int.le_refl _⟩, hh⟩
-  | other e =>
-    simp only [Registry.hbStep?, Option.some.injEq] at hs; subst hs
-    exact ⟨Registry.live_mono_ev c.reg a l hlive e hl, hh⟩
-  | handler i =>
-    simp only [Registry.hbStep?] at hs
-    cases hp : c.handlers i with
-    | start s al =>
-      simp only [hp, Option.some.injEq] at hs; subst hs
-      refine ⟨⟨l, hlive, Int.le_refl _⟩, ?_⟩
-      intro j
-      by_cases hj : j = i
-      · subst hj
-        have := hh j; rw [hp] at this
-        simp only [if_true]
-        cases s <;> cases al <;> simp_all [hbUnregs]
-      · simp only [hj, if_false]; exact hh j
-    | read s al t =>
-      simp only [hp, Option.some.injEq] at hs; subst hs
-      refine ⟨?_, ?_⟩
-      · apply Registry.live_mono_run a _ c.reg l hlive
-        intro e he
-        have := hh i; rw [hp] at this
-        cases s with
-        | none => simp [Registry.heartbeatEvents] at he
-        | some b =>
-          cases al with
-          | true => simp [Registry.heartbeatEvents] at he; rw [he]; rfl
-          | false =>
-            simp [Registry.heartbeatEvents] at he; rw [he]
-            simpa [hbUnregs, Registry.REv.unregisters] using this
-      · intro j
-        by_cases hj : j = i
-        · subst hj; simp [hbUnregs]
-        · simp only [hj, if_false]; exact hh j
-    | done => simp [hp] at hs
-
 /-- **Monotone under concurrent heartbeat handlers.**  Any number of server-side `_heartbeat`
 handlers, each split into its clock read and its registry call, interleaved in any order with clock
 ticks and with arbitrary other registry events: as long as nobody unregisters `a`, the recorded
 heartbeat of `a` never moves backwards.  (With the unchanged `register` this fails: `Witness.C20_F13`.) -/
 theorem C20_monotone_concurrent (a : Registry.Addr) (labels : List Registry.HbLabel) :
     ∀ (c : Registry.HbCfg) (l : Registry.Time), c.reg a = some (some l) →
-      (∀ h, hbUnregs a (c.handlers h) = false) → (∀ lab ∈ labels, labelUnregs a lab = false) →
-      ∃ l', (hbRun c labels).reg a = some (some l') ∧ l ≤ l' := by
+      (∀ h, Registry.hbUnregs a (c.handlers h) = false) → (∀ lab ∈ labels, Registry.labelUnregs a lab = false) →
+      ∃ l', (Registry.hbRun c labels).reg a = some (some l') ∧ l ≤ l' := by
   induction labels with
   | nil => intro c l h _ _; exact ⟨l, h, Int.le_refl _⟩
   | cons lab ls ih =>
     intro c l hlive hh hl
-    simp only [hbRun]
+    simp only [Registry.hbRun]
     cases hs : Registry.hbStep? c lab with
     | none => simpa using ih c l hlive hh (fun x hx => hl x (by simp [hx]))
     | some c' =>
-      obtain ⟨⟨l1, h1, hle1⟩, hh'⟩ := hbStep_mono a c c' lab l hs hlive hh (hl lab (by simp))
+      obtain ⟨⟨l1, h1, hle1⟩, hh'⟩ := Registry.hbStep_mono a c c' lab l hs hlive hh (hl lab (by simp))
       obtain ⟨l2, h2, hle2⟩ := ih c' l1 h1 hh' (fun x hx => hl x (by simp [hx]))
       exact ⟨l2, by simpa using h2, Int.le_trans hle1 hle2⟩
 
@@ -279,6 +203,21 @@ theorem C20_released_on_exit (pw : Owner.Pid → List Owner.Wid) (p : Owner.Pid)
   simp only [Owner.isLocked, Bool.and_eq_true, beq_iff_eq] at hl
   have := hE.todo [] htodo w hw hl.2
   simp at this
+
+/-- The marker used by `C20_released_on_exit` is set exactly when the `finally: release_all()` has
+released its last worker: the step that leaves the last `release` of a finaliser of `p` makes the
+thread idle with `exited = some p`. -/
+theorem C20_finalize_marks_exit (pw : Owner.Pid → List Owner.Wid) (u : Owner.Wid → Bool) (c c' : Owner.Cfg)
+    (t : Owner.Tid) (cl : Owner.Call) (p : Owner.Pid)
+    (hcur : (c.T t).cur = some (cl, .relAll p [] true)) (hpc : cl.pc = .rExit)
+    (hs : Owner.step? pw u c t = some c') :
+    (c'.T t).cur = none ∧ (c'.T t).exited = some p := by
+  unfold Owner.step? at hs
+  have hm : Owner.mstep u c.W t cl =
+      some (Owner.upd c.W cl.w { c.W cl.w with sl := none }, .ret true) := by simp [Owner.mstep, hpc]
+  simp only [hcur, hm, Option.some.injEq] at hs
+  subst hs
+  simp [Owner.resume, Owner.relAllLoop, Owner.Thread.apply]
 
 /-- The scripts of the three pool operations do end in the finaliser, whatever happens in the body. -/
 theorem C20_scripts_end_in_finalize (pw : Owner.Pid → List Owner.Wid) (p : Owner.Pid) (n : Nat)
